@@ -52,7 +52,7 @@ impl Property for C13 {
         }
     }
     fn rule(&self) -> &'static str {
-        "generated crate trees (depth <= 3: name.rs / name/mod.rs, #[path] into the same and other directories, inline nesting, cfg_if! branches, cfg_attr(path), a file reached twice, decoy files nobody declares, #[rustfmt::skip] on the declaration, inner skip, ignore entries, @generated with format_generated_files=false, skip_children, root given as a relative or an absolute path), every file unformatted; the real binary runs in files mode on a copy; oracle: a reference model built from the Rust Reference's module file rules says which files are reachable and not excluded; the set of files whose bytes changed must equal that set, every changed file must hold exactly its own formatted text (formatted once), exit status 0; non-trivial = the tree has a decoy or an exclusion and at least 3 files; distinct by case content"
+        "generated crate trees (depth <= 3: name.rs / name/mod.rs, #[path] into the same and other directories, inline nesting, cfg_if! branches (also with an inline module that declares an out-of-line one), cfg_match! arms, the fallback to the declaring file's own directory, cfg_attr(path), a file reached twice, decoy files nobody declares, #[rustfmt::skip] on the declaration, inner skip, ignore entries (also one matching the root itself), @generated with format_generated_files=false, skip_children, root given as a relative or an absolute path), every file unformatted; the real binary runs in files mode on a copy; oracle: a reference model built from the Rust Reference's module file rules says which files are reachable and not excluded; the set of files whose bytes changed must equal that set, every changed file must hold exactly its own formatted text (formatted once), exit status 0; non-trivial = the tree has a decoy or an exclusion and at least 3 files; distinct by case content"
     }
     fn assumptions(&self) -> Vec<&'static str> {
         vec!["skipped / inner-skipped / ignored / @generated modules are generated as leaves (what happens to their children is not claimed)", "a file's expected text is what the same bytes give on standard input under the default configuration"]
